@@ -11,9 +11,9 @@ Ltac inv H := inversion H; subst; clear H.
 Definition halted (c : cstate) : Prop :=
   cancelled c = true /\ flag c = true /\ Forall (fun t => tshare t = true) (threads c).
 
-Definition inv_ok (shares : bool) (c : cstate) : Prop :=
+Definition inv_ok (kf : ccfg) (c : cstate) : Prop :=
   (flag c = true -> cancelled c = true) /\
-  (shares = true -> Forall (fun t => tshare t = true) (threads c)).
+  (shares kf = true -> Forall (fun t => tshare t = true) (threads c)).
 
 Lemma set_nth_Forall {A} (P : A -> Prop) n x l : Forall P l -> P x -> Forall P (set_nth n x l).
 Proof.
@@ -30,15 +30,15 @@ Ltac break_match :=
          | |- context [if ?x then _ else _] => destruct x eqn:?
          end.
 
-Lemma step_share shares c t :
-  tshare (o_thread (step_thread shares c t)) = tshare t /\
-  (forall n, o_spawn (step_thread shares c t) = Some n -> tshare n = (if shares then tshare t else false)).
+Lemma step_share kf c t :
+  tshare (o_thread (step_thread kf c t)) = tshare t /\
+  (forall n, o_spawn (step_thread kf c t) = Some n -> tshare n = (if shares kf then tshare t else false)).
 Proof.
   unfold step_thread, wake. break_match; cbn; (split; [reflexivity|]); intros nn X; try discriminate;
     inv X; cbn; try reflexivity; try congruence.
 Qed.
 
-Lemma act_inv shares a c : inv_ok shares c -> inv_ok shares (act shares a c).
+Lemma act_inv kf a c : inv_ok kf c -> inv_ok kf (act kf a c).
 Proof.
   intros [A B]. destruct a as [| |i]; cbn.
   - split; cbn; auto.
@@ -48,35 +48,35 @@ Proof.
     split; cbn; auto. intros S. specialize (B S).
     assert (Ht : tshare t = true).
     { rewrite Forall_forall in B. apply B. eapply nth_error_In; eauto. }
-    destruct (step_share shares c t) as [S1 S2].
+    destruct (step_share kf c t) as [S1 S2].
     apply Forall_app. split.
     + apply set_nth_Forall; auto. congruence.
-    + destruct (o_spawn (step_thread shares c t)) as [n|] eqn:SP; constructor; auto.
-      rewrite (S2 n eq_refl). subst shares. auto.
+    + destruct (o_spawn (step_thread kf c t)) as [n|] eqn:SP; constructor; auto.
+      rewrite (S2 n eq_refl). rewrite S. auto.
 Qed.
 
-Lemma run_inv shares sched : forall c, inv_ok shares c -> inv_ok shares (run shares sched c).
+Lemma run_inv kf sched : forall c, inv_ok kf c -> inv_ok kf (run kf sched c).
 Proof. induction sched as [|a r IH]; intros c I; cbn; auto. apply IH. apply act_inv; auto. Qed.
 
-Lemma init_inv shares s : inv_ok shares (init s).
+Lemma init_inv kf s : inv_ok kf (init s).
 Proof. split; cbn; [discriminate|]. intros _. repeat constructor. Qed.
 
 (* every script thread of every reachable state polls the run's flag, and the flag is set only after the
    context was cancelled *)
 Theorem governed_reachable s sched :
-  let c := run true sched (init s) in
+  let c := run k_current sched (init s) in
   Forall (fun t => tshare t = true) (threads c) /\ (flag c = true -> cancelled c = true).
 Proof.
-  destruct (run_inv true sched (init s) (init_inv true s)) as [A B]. split; auto.
+  destruct (run_inv k_current sched (init s) (init_inv k_current s)) as [A B]. split; auto.
 Qed.
 
 (* ------------------------------------------------------------------ one step after the watcher's step *)
 Lemma stack_weight_pos st : 1 <= stack_weight st.
 Proof. induction st; cbn [stack_weight]; lia. Qed.
 
-Lemma step_progress shares c t :
+Lemma step_progress kf c t :
   cancelled c = true -> flag c = true -> tshare t = true -> tdone t = None ->
-  let o := step_thread shares c t in
+  let o := step_thread kf c t in
   steps_left (o_thread o) < steps_left t /\ o_tick o = false /\ o_spawn o = None /\ o_mark o = false /\
   enabled c t = true.
 Proof.
@@ -150,11 +150,11 @@ Lemma le_threads_length l l' : le_threads l l' -> length l = length l'.
 Proof. induction 1; cbn; auto. Qed.
 
 (* one action in a halted state *)
-Lemma act_halted shares a c :
+Lemma act_halted kf a c :
   halted c ->
-  halted (act shares a c) /\ ticks (act shares a c) = ticks c /\ le_threads (threads c) (threads (act shares a c)) /\
+  halted (act kf a c) /\ ticks (act kf a c) = ticks c /\ le_threads (threads c) (threads (act kf a c)) /\
   (forall i t, a = AStep i -> nth_error (threads c) i = Some t -> tdone t = None ->
-     exists t', nth_error (threads (act shares a c)) i = Some t' /\ steps_left t' < steps_left t).
+     exists t', nth_error (threads (act kf a c)) i = Some t' /\ steps_left t' < steps_left t).
 Proof.
   intros (C & F & G). destruct a as [| |i]; cbn.
   - repeat split; auto. apply le_threads_refl. intros; discriminate.
@@ -165,10 +165,10 @@ Proof.
     destruct (tdone t) eqn:D.
     + unfold enabled. rewrite D. repeat split; auto. apply le_threads_refl.
       intros j tt X Y Z. inv X. rewrite N in Y. inv Y. congruence.
-    + destruct (step_progress shares c t C F S D) as (P1 & P2 & P3 & P4 & P5). rewrite P5, P2, P3, P4. cbn.
+    + destruct (step_progress kf c t C F S D) as (P1 & P2 & P3 & P4 & P5). rewrite P5, P2, P3, P4. cbn.
       rewrite app_nil_r. rewrite orb_false_r.
       repeat split; auto.
-      * apply set_nth_Forall; auto. destruct (step_share shares c t) as [X _]. congruence.
+      * apply set_nth_Forall; auto. destruct (step_share kf c t) as [X _]. congruence.
       * apply le_threads_set_nth with (t := t); auto. lia.
       * intros j tt X Y Z. inv X. rewrite N in Y. inv Y.
         eexists. split; [eapply nth_error_set_nth; eauto|auto].
@@ -191,9 +191,9 @@ Qed.
 
 (* after the watcher's step: whatever the schedule does, no tick is added, no thread appears, and thread i is
    finished as soon as it has been given steps_left of its own steps *)
-Lemma bounded_response shares sched : forall c i t,
+Lemma bounded_response kf sched : forall c i t,
   halted c -> nth_error (threads c) i = Some t ->
-  let c' := run shares sched c in
+  let c' := run kf sched c in
   halted c' /\ ticks c' = ticks c /\ length (threads c') = length (threads c) /\
   (steps_left t <= count_steps i sched ->
    exists t', nth_error (threads c') i = Some t' /\ tdone t' <> None).
@@ -201,13 +201,13 @@ Proof.
   induction sched as [|a r IH]; intros c i t Hc N; cbn [run].
   - cbn. split; [exact Hc|split; [reflexivity|split; [reflexivity|]]].
     intros L. exists t. split; auto. apply steps_left_done. lia.
-  - destruct (act_halted shares a c Hc) as (H1 & H2 & H3 & H4).
-    assert (exists t1, nth_error (threads (act shares a c)) i = Some t1) as [t1 N1].
-    { assert (X : i < length (threads (act shares a c))).
+  - destruct (act_halted kf a c Hc) as (H1 & H2 & H3 & H4).
+    assert (exists t1, nth_error (threads (act kf a c)) i = Some t1) as [t1 N1].
+    { assert (X : i < length (threads (act kf a c))).
       { rewrite <- (le_threads_length _ _ H3). apply nth_error_Some. congruence. }
-      destruct (nth_error (threads (act shares a c)) i) eqn:E; eauto. apply nth_error_None in E. lia. }
+      destruct (nth_error (threads (act kf a c)) i) eqn:E; eauto. apply nth_error_None in E. lia. }
     pose proof (le_threads_nth _ _ _ _ _ H3 N N1) as LE.
-    destruct (IH (act shares a c) i t1 H1 N1) as (I1 & I2 & I3 & I4).
+    destruct (IH (act kf a c) i t1 H1 N1) as (I1 & I2 & I3 & I4).
     split; [exact I1|split; [congruence|split]].
     + rewrite I3. symmetry. apply le_threads_length; auto.
     + intros L. apply I4.
@@ -222,7 +222,7 @@ Qed.
 Fixpoint prefix (f : nat -> action) (n : nat) : list action :=
   match n with 0 => [] | S k => prefix f k ++ [f k] end.
 
-Lemma run_app shares a b c : run shares (a ++ b) c = run shares b (run shares a c).
+Lemma run_app kf a b c : run kf (a ++ b) c = run kf b (run kf a c).
 Proof. revert c. induction a; intros c; cbn; auto. Qed.
 
 (* every thread gets steps again and again, and so does the watcher goroutine *)
@@ -261,72 +261,72 @@ Proof.
 Qed.
 
 (* in a halted state a finished thread stays finished *)
-Lemma done_stays shares sched : forall c i t,
+Lemma done_stays kf sched : forall c i t,
   halted c -> nth_error (threads c) i = Some t -> tdone t <> None ->
-  exists t', nth_error (threads (run shares sched c)) i = Some t' /\ tdone t' <> None.
+  exists t', nth_error (threads (run kf sched c)) i = Some t' /\ tdone t' <> None.
 Proof.
-  intros c i t Hc N D. destruct (bounded_response shares sched c i t Hc N) as (_ & _ & _ & X).
+  intros c i t Hc N D. destruct (bounded_response kf sched c i t Hc N) as (_ & _ & _ & X).
   apply X. assert (steps_left t = 0) by (apply steps_left_done; auto). lia.
 Qed.
 
-Lemma thread_stops shares f c i t :
+Lemma thread_stops kf f c i t :
   halted c -> (forall n, exists m, n <= m /\ f m = AStep i) -> nth_error (threads c) i = Some t ->
   exists n, forall m, n <= m ->
-    exists t', nth_error (threads (run shares (prefix f m) c)) i = Some t' /\ tdone t' <> None.
+    exists t', nth_error (threads (run kf (prefix f m) c)) i = Some t' /\ tdone t' <> None.
 Proof.
   intros Hc F N.
   destruct (fair_many f i F (steps_left t) 0) as (n & _ & L & _). cbn in L.
   exists n. intros m M.
   destruct (prefix_split f n m M) as (r & R1). rewrite R1, run_app.
-  destruct (bounded_response shares (prefix f n) c i t Hc N) as (H1 & _ & _ & X).
+  destruct (bounded_response kf (prefix f n) c i t Hc N) as (H1 & _ & _ & X).
   destruct (X ltac:(lia)) as (t1 & N1 & D1).
-  apply (done_stays shares r _ i t1 H1 N1 D1).
+  apply (done_stays kf r _ i t1 H1 N1 D1).
 Qed.
 
-Lemma threads_stop shares f c :
+Lemma threads_stop kf f c :
   halted c -> (forall i n, exists m, n <= m /\ f m = AStep i) ->
   forall k, k <= length (threads c) ->
   exists n, forall m, n <= m -> forall i, i < k ->
-    exists t', nth_error (threads (run shares (prefix f m) c)) i = Some t' /\ tdone t' <> None.
+    exists t', nth_error (threads (run kf (prefix f m) c)) i = Some t' /\ tdone t' <> None.
 Proof.
   intros Hc F. induction k as [|k IH]; intros K.
   - exists 0. intros m _ i L. lia.
   - destruct (IH ltac:(lia)) as (n1 & P1).
     destruct (nth_error (threads c) k) as [t|] eqn:N; [|apply nth_error_None in N; lia].
-    destruct (thread_stops shares f c k t Hc (F k) N) as (n2 & P2).
+    destruct (thread_stops kf f c k t Hc (F k) N) as (n2 & P2).
     exists (Nat.max n1 n2). intros m M i L.
     destruct (Nat.eq_dec i k) as [->|NE]; [apply P2; lia|apply P1; lia].
 Qed.
 
 (* after the watcher's step, under every fair schedule: a point is reached from which on every thread of the
    evaluation is finished, and no tick is ever added *)
-Theorem halted_all_stop shares f c :
+Theorem halted_all_stop kf f c :
   halted c -> fair f ->
-  (exists n, forall m, n <= m -> all_done (run shares (prefix f m) c) = true) /\
-  (forall m, ticks (run shares (prefix f m) c) = ticks c).
+  (exists n, forall m, n <= m -> all_done (run kf (prefix f m) c) = true) /\
+  (forall m, ticks (run kf (prefix f m) c) = ticks c).
 Proof.
   intros Hc [Fs _]. split.
-  - destruct (threads_stop shares f c Hc Fs (length (threads c)) (le_n _)) as (n & P).
+  - destruct (threads_stop kf f c Hc Fs (length (threads c)) (le_n _)) as (n & P).
     exists n. intros m M. apply all_done_spec. intros i t N.
     destruct (nth_error (threads c) 0) as [t0|] eqn:N0.
-    + destruct (bounded_response shares (prefix f m) c 0 t0 Hc N0) as (_ & _ & LEN & _).
+    + destruct (bounded_response kf (prefix f m) c 0 t0 Hc N0) as (_ & _ & LEN & _).
       assert (L : i < length (threads c)) by (rewrite <- LEN; apply nth_error_Some; congruence).
       destruct (P m M i L) as (t' & X1 & X2). congruence.
     + (* no thread at all *)
       apply nth_error_None in N0. destruct (threads c) eqn:ET; [|cbn in N0; lia].
-      assert (LEN : forall sched c0, threads c0 = [] -> halted c0 -> threads (run shares sched c0) = []).
+      assert (LEN : forall sched c0, threads c0 = [] -> halted c0 -> threads (run kf sched c0) = []).
       { clear. induction sched as [|a r IH]; intros c0 E Hc0; cbn; auto.
-        destruct (act_halted shares a c0 Hc0) as (H1 & _ & H3 & _). apply IH; auto.
+        destruct (act_halted kf a c0 Hc0) as (H1 & _ & H3 & _). apply IH; auto.
         rewrite E in H3. inv H3. reflexivity. }
       rewrite (LEN (prefix f m) c ET Hc) in N. destruct i; discriminate.
   - intros m. destruct (threads c) as [|t0 r] eqn:ET.
     + clear Fs. revert c Hc ET. induction (prefix f m) as [|a l IH]; intros c Hc ET; cbn; auto.
-      destruct (act_halted shares a c Hc) as (H1 & H2 & H3 & _). rewrite IH; auto.
+      destruct (act_halted kf a c Hc) as (H1 & H2 & H3 & _). rewrite IH; auto.
       rewrite ET in H3. inv H3. reflexivity.
-    + destruct (bounded_response shares (prefix f m) c 0 t0 Hc ltac:(rewrite ET; reflexivity)) as (_ & T & _). exact T.
+    + destruct (bounded_response kf (prefix f m) c 0 t0 Hc ltac:(rewrite ET; reflexivity)) as (_ & T & _). exact T.
 Qed.
 
-Lemma cancelled_stays shares l : forall c, cancelled c = true -> cancelled (run shares l c) = true.
+Lemma cancelled_stays kf l : forall c, cancelled c = true -> cancelled (run kf l c) = true.
 Proof.
   induction l as [|a l IH]; intros c C; cbn; auto.
   apply IH. destruct a as [| |i]; cbn; auto. rewrite C. reflexivity.
@@ -336,20 +336,20 @@ Qed.
 (* from cancellation to quiescence: once the context is cancelled in a reachable state, a fair schedule lets
    the watcher run, after which the theorem above applies *)
 Theorem cancelled_all_stop s sched f :
-  let c := run true sched (init s) in
+  let c := run k_current sched (init s) in
   cancelled c = true -> fair f ->
-  exists n0, (exists n, forall m, n <= m -> all_done (run true (prefix f (n0 + m)) c) = true) /\
-             (forall m, ticks (run true (prefix f (n0 + m)) c) = ticks (run true (prefix f n0) c)).
+  exists n0, (exists n, forall m, n <= m -> all_done (run k_current (prefix f (n0 + m)) c) = true) /\
+             (forall m, ticks (run k_current (prefix f (n0 + m)) c) = ticks (run k_current (prefix f n0) c)).
 Proof.
   intros c C F. pose proof F as [Fs Ff].
   destruct (Ff 0) as (k & _ & K).
   exists (S k).
-  set (c1 := run true (prefix f (S k)) c).
-  assert (I1 : inv_ok true c1).
+  set (c1 := run k_current (prefix f (S k)) c).
+  assert (I1 : inv_ok k_current c1).
   { unfold c1, c. rewrite <- run_app. apply run_inv. apply init_inv. }
   assert (C1 : cancelled c1 = true /\ flag c1 = true).
   { unfold c1. cbn [prefix]. rewrite run_app. rewrite K. cbn [run].
-    assert (X : cancelled (run true (prefix f k) c) = true) by (apply cancelled_stays; auto).
+    assert (X : cancelled (run k_current (prefix f k) c) = true) by (apply cancelled_stays; auto).
     cbn. rewrite X. cbn. auto. }
   assert (H1 : halted c1) by (destruct C1, I1 as [_ G]; repeat split; auto).
   set (g := fun n => f (S k + n)).
@@ -362,7 +362,7 @@ Proof.
   assert (PG : forall m, prefix f (S k + m) = prefix f (S k) ++ prefix g m).
   { induction m as [|m IH]; [rewrite Nat.add_0_r, app_nil_r; reflexivity|].
     rewrite Nat.add_succ_r. cbn [prefix]. rewrite IH, app_assoc. reflexivity. }
-  destruct (halted_all_stop true g c1 H1 Fg) as ((n & A) & B).
+  destruct (halted_all_stop k_current g c1 H1 Fg) as ((n & A) & B).
   split.
   - exists n. intros m M. rewrite PG, run_app. apply A; auto.
   - intros m. rewrite PG, run_app. rewrite B. reflexivity.
@@ -393,10 +393,10 @@ Definition thread_clean (t : thread) : bool :=
   match tmode t with Unwind e => err_ctx e | Normal => true end &&
   match tdone t with Some (TErr e) => err_ctx e | _ => true end.
 
-Lemma step_clean shares c t :
+Lemma step_clean kf c t :
   (flag c = true -> cancelled c = true) -> thread_clean t = true ->
-  thread_clean (o_thread (step_thread shares c t)) = true /\
-  (forall n, o_spawn (step_thread shares c t) = Some n -> thread_clean n = true).
+  thread_clean (o_thread (step_thread kf c t)) = true /\
+  (forall n, o_spawn (step_thread kf c t) = Some n -> thread_clean n = true).
 Proof.
   intros FC CL. unfold thread_clean in CL.
   repeat (apply andb_true_iff in CL; destruct CL as [CL ?]).
@@ -428,7 +428,7 @@ Proof.
   cbn in F. apply andb_true_iff in F. destruct F. destruct n; cbn; apply andb_true_iff; auto.
 Qed.
 
-Lemma act_clean shares a c : state_clean c -> state_clean (act shares a c).
+Lemma act_clean kf a c : state_clean c -> state_clean (act kf a c).
 Proof.
   intros [A B]. destruct a as [| |i]; cbn.
   - split; cbn; auto.
@@ -438,17 +438,17 @@ Proof.
     split; cbn; auto.
     assert (Ht : thread_clean t = true).
     { rewrite forallb_forall in B. apply B. eapply nth_error_In; eauto. }
-    destruct (step_clean shares c t A Ht) as [S1 S2].
+    destruct (step_clean kf c t A Ht) as [S1 S2].
     rewrite forallb_app. apply andb_true_iff. split.
     + apply forallb_set_nth; auto.
-    + destruct (o_spawn (step_thread shares c t)) as [n|] eqn:SP; cbn; auto. rewrite (S2 n eq_refl). reflexivity.
+    + destruct (o_spawn (step_thread kf c t)) as [n|] eqn:SP; cbn; auto. rewrite (S2 n eq_refl). reflexivity.
 Qed.
 
 (* a program without wait and without stringifying callback builtins: in every reachable state, under every
    schedule, every error a thread is unwinding with or has ended with is the context's own error *)
-Theorem clean_error_identity shares s sched :
+Theorem clean_error_identity kf s sched :
   idclean s = true ->
-  let c := run shares sched (init s) in
+  let c := run kf sched (init s) in
   forall t, In t (threads c) ->
     (forall e, tmode t = Unwind e -> e = ECtx) /\ (forall e, tdone t = Some (TErr e) -> e = ECtx).
 Proof.
@@ -475,13 +475,13 @@ Definition cyc (k : nat) : cstate :=
       [mkT true None [] (Unwind ECtx) (Some (TErr ECtx)) false;
        mkT false None [FLoop Tick; FCall] Normal None false].
 
-Lemma spawn_loop_reaches : exists k, run false sched_spawn_loop (init prog_spawn_loop) = cyc k.
+Lemma spawn_loop_reaches : exists k, run k_noclone sched_spawn_loop (init prog_spawn_loop) = cyc k.
 Proof. eexists. vm_compute. reflexivity. Qed.
 
-Lemma cyc_step k : run false [AStep 1; AStep 1] (cyc k) = cyc (S k).
+Lemma cyc_step k : run k_noclone [AStep 1; AStep 1] (cyc k) = cyc (S k).
 Proof. reflexivity. Qed.
 
-Lemma cyc_forever n : forall k, run false (concat (repeat [AStep 1; AStep 1] n)) (cyc k) = cyc (n + k).
+Lemma cyc_forever n : forall k, run k_noclone (concat (repeat [AStep 1; AStep 1] n)) (cyc k) = cyc (n + k).
 Proof.
   induction n as [|n IH]; intros k; [reflexivity|].
   cbn [repeat concat]. rewrite run_app, cyc_step, IH. f_equal. lia.
@@ -490,9 +490,9 @@ Qed.
 (* before b731f6b: the evaluation has returned the context's error, the flag is set, and the clone's loop goes on
    ticking for ever *)
 Theorem noclone_spawned_loop_survives :
-  exists s sched, let c := run false sched (init s) in
+  exists s sched, let c := run k_noclone sched (init s) in
     cancelled c = true /\ flag c = true /\ main_result c = Some (TErr ECtx) /\
-    forall n, let c' := run false (concat (repeat [AStep 1; AStep 1] n)) c in
+    forall n, let c' := run k_noclone (concat (repeat [AStep 1; AStep 1] n)) c in
               ticks c' = n + ticks c /\ all_done c' = false.
 Proof.
   exists prog_spawn_loop, sched_spawn_loop. cbn zeta.
@@ -502,5 +502,112 @@ Qed.
 
 (* the same program and schedule on the code as it is: the clone stops *)
 Lemma spawn_loop_now_stops :
-  all_done (run true (sched_spawn_loop ++ [AStep 1; AStep 1; AStep 1; AStep 1]) (init prog_spawn_loop)) = true.
+  all_done (run k_current (sched_spawn_loop ++ [AStep 1; AStep 1; AStep 1; AStep 1]) (init prog_spawn_loop)) = true.
 Proof. vm_compute. reflexivity. Qed.
+
+(* ------------------------------------------------------------------ the repaired builtins: every error is the context's *)
+Definition frame_errs (f : frame) : bool :=
+  match f with FCb _ _ _ (Some x) => err_ctx x | _ => true end.
+Definition thread_errs (t : thread) : bool :=
+  forallb frame_errs (tstack t) &&
+  match tmode t with Unwind e => err_ctx e | Normal => true end &&
+  match tdone t with Some (TErr e) => err_ctx e | _ => true end.
+
+Lemma step_errs kf c t :
+  keeps_err kf = true -> (flag c = true -> cancelled c = true) -> thread_errs t = true ->
+  thread_errs (o_thread (step_thread kf c t)) = true /\
+  (forall n, o_spawn (step_thread kf c t) = Some n -> thread_errs n = true).
+Proof.
+  intros KE FC CL. unfold thread_errs in CL.
+  repeat (apply andb_true_iff in CL; destruct CL as [CL ?]).
+  assert (HE : polled c t = true -> halt_err c = ECtx).
+  { unfold polled, halt_err. intros X. apply andb_true_iff in X. destruct X as [_ X]. rewrite (FC X). reflexivity. }
+  unfold step_thread, wake, stringify. rewrite KE. break_match; subst; unfold thread_errs;
+    cbn [o_thread o_spawn upd unwind fin_piece pop_to finish push set_cur park
+         tdone tmode tcur tstack tparked forallb frame_errs err_ctx] in *;
+    try (rewrite HE by auto); cbn [err_ctx];
+    repeat match goal with
+           | H : _ && _ = true |- _ => apply andb_true_iff in H; destruct H
+           | H : tstack t = _ |- _ => rewrite H in *; cbn [forallb frame_errs] in *
+           end;
+    try discriminate;
+    (split; [|intros nn X; try discriminate; inv X; cbn; rewrite ?andb_true_r; auto]);
+    repeat (apply andb_true_iff; split); auto; try reflexivity; try congruence;
+    try (repeat match goal with H : ?x = _ |- context [?x] => rewrite H end; auto; fail);
+    try (cbn in *; congruence).
+Qed.
+
+Definition state_errs (c : cstate) : Prop :=
+  (flag c = true -> cancelled c = true) /\ forallb thread_errs (threads c) = true.
+
+Lemma act_errs kf a c : keeps_err kf = true -> state_errs c -> state_errs (act kf a c).
+Proof.
+  intros KE [A B]. destruct a as [| |i]; cbn.
+  - split; cbn; auto.
+  - destruct (cancelled c) eqn:E; [split; cbn; auto|split; auto]. intros X. apply A in X. discriminate.
+  - destruct (nth_error (threads c) i) as [t|] eqn:N; [|split; auto].
+    destruct (enabled c t); [|split; auto].
+    split; cbn; auto.
+    assert (Ht : thread_errs t = true).
+    { rewrite forallb_forall in B. apply B. eapply nth_error_In; eauto. }
+    destruct (step_errs kf c t KE A Ht) as [S1 S2].
+    rewrite forallb_app. apply andb_true_iff. split.
+    + apply forallb_set_nth; auto.
+    + destruct (o_spawn (step_thread kf c t)) as [n|] eqn:SP; cbn; auto. rewrite (S2 n eq_refl). reflexivity.
+Qed.
+
+(* every program: in every reachable state, under every schedule, every error a thread is unwinding with or has
+   ended with is the context's own error *)
+Theorem error_identity kf s sched :
+  keeps_err kf = true ->
+  let c := run kf sched (init s) in
+  forall t, In t (threads c) ->
+    (forall e, tmode t = Unwind e -> e = ECtx) /\ (forall e, tdone t = Some (TErr e) -> e = ECtx).
+Proof.
+  intros KE c.
+  assert (SC : state_errs c).
+  { assert (S0 : state_errs (init s)) by (split; cbn; [discriminate|reflexivity]).
+    unfold c. revert S0. generalize (init s).
+    induction sched as [|a r IH]; intros c0 S0; cbn; auto. apply IH. apply act_errs; auto. }
+  destruct SC as [_ B]. intros t I. rewrite forallb_forall in B. specialize (B t I).
+  unfold thread_errs in B. repeat (apply andb_true_iff in B; destruct B as [B ?]).
+  split; intros e X; rewrite X in *; destruct e; cbn in *; congruence.
+Qed.
+
+(* a cancellation that reached a thread is not swallowed: a thread that is unwinding, or whose sorted() keeps an
+   error for the end, stays so until it ends with an error *)
+Definition keeps_failure (f : frame) : bool :=
+  match f with FCb CbSorted _ _ (Some _) => true | _ => false end.
+Definition failing (t : thread) : bool :=
+  match tmode t with Unwind _ => true | Normal => false end || existsb keeps_failure (tstack t).
+
+Lemma step_failing kf c t :
+  try_fatal kf = true -> cancelled c = true -> tdone t = None -> failing t = true ->
+  let t' := o_thread (step_thread kf c t) in
+  failing t' = true \/ exists e, tdone t' = Some (TErr e).
+Proof.
+  intros TF C D FL. cbn zeta. unfold failing in FL.
+  unfold step_thread, wake. rewrite D, TF, C. cbn [andb].
+  destruct (tmode t) as [|e] eqn:EM; cbn [orb] in FL.
+  - (* normal mode above a sorted() that has an error in store *)
+    destruct (tcur t) as [s|] eqn:EC.
+    + break_match; subst; unfold failing;
+        cbn [o_thread upd unwind fin_piece pop_to finish push set_cur park tmode tstack existsb keeps_failure orb];
+        try (left; reflexivity); left; rewrite ?FL, ?orb_true_r; auto.
+    + destruct (tstack t) as [|f r] eqn:ES; [cbn in FL; discriminate|].
+      cbn [existsb] in FL.
+      break_match; subst; unfold failing;
+        cbn [o_thread upd unwind fin_piece pop_to finish push set_cur park tmode tstack existsb keeps_failure orb] in *;
+        try (left; reflexivity); try (left; rewrite ?FL, ?orb_true_r; auto; fail);
+        left; rewrite ?orb_true_r; auto;
+        try (match goal with k0 : cbk |- _ => destruct k0 end; cbn in *; auto; congruence).
+  - destruct (tstack t) as [|f r] eqn:ES; [right; eexists; reflexivity|].
+    break_match; subst; unfold failing;
+      cbn [o_thread upd unwind fin_piece pop_to finish push set_cur park tmode tstack existsb keeps_failure orb];
+      left; reflexivity.
+Qed.
+
+(* with the repaired primitives a parked thread that the cancellation wakes reports it *)
+Lemma wake_reports_ctx kf t b :
+  keeps_err kf = true -> wake_reports kf = true -> wake kf t b = unwind t ECtx.
+Proof. intros A B. unfold wake. rewrite A, B. destruct b; reflexivity. Qed.
